@@ -78,6 +78,117 @@ def run_probe(which):
             yaml.safe_dump_all([{'a': 'yes'}, [1.0]])]
 
 
+BROAD_DOC = """\
+- [yes, No, on, OFF, y, n, true, False, TRUE, ~, null, Null, '', "quoted", 'true', "1"]
+- [1, -1, +1, 0, 017, 0o17, 0x1F, 0b101, 1_000, 190:20:30, 685_230, 1e5, 1E3, 1.5, .5, 1., -.5, 6.02e+23,
+   1_000.5, 1:30.5, .inf, -.INF, +.Inf, .nan, .NaN, 1e, e5, 1.2.3, 0x, 0b2, 08, 1__0]
+- [2001-02-03, 2001-12-14t21:59:43.10-05:00, 2001-12-14 21:59:43.10 -5, 2001-12-15 2:59:43.10,
+   2001-12-14T21:59:43Z, 2001-2-3, '2001-02-03', 20010203]
+- {a: 1, b: {c: [1, 2, {d: e}]}, 1: int key, 1.5: float key, true: bool key, ~: null key}
+- !!set {a, b, c}
+- !!omap [a: 1, b: 2]
+- !!pairs [a: 1, a: 2]
+- !!binary "aGVsbG8="
+- !!str 123
+- !!int "42"
+- !!float "1"
+- !!bool "yes"
+- !!null ""
+- !!timestamp "2001-02-03"
+- !!seq [1]
+- !!map {k: v}
+- &anchor {x: 1, y: [1, 2]}
+- *anchor
+- {<<: *anchor, z: 3}
+- {<<: [*anchor, {w: 0}], x: 2}
+- "multi
+  line"
+- |
+  literal
+   text
+- >-
+  folded
+  text
+- "esc \\x41 \\u00e9 \\U0001F600 \\t \\0 \\N \\_ \\L \\P \\e"
+- 'it''s'
+- [a: b, c]
+- - - nested
+--- second document
+--- !!str
+...
+---
+k: v
+"""
+
+BROAD_ERRORS = ['!A {x: 1}', '!!python/tuple [1]', '!!python/object:os.system []', '{a: 1, a: 2}',
+                '&x [1, *x]', '{[1]: 2}', '*unknown', 'a: b: c', '[1, 2', '\x01', '!!int abc',
+                '!!timestamp nope', '!!binary "@@@"', '!!omap {a: 1}', '!!set [a]', '- !!bool maybe',
+                '%YAML 2.0\n--- a', '!Path a/b', '!!python/name:os.system x', 'a: &b c\n*b : d\n? *b\n']
+
+
+def _broad_values():
+    import datetime
+    import decimal
+    tz = datetime.timezone(datetime.timedelta(hours=-5))
+    return [
+        True, False, None, 0, -1, 10 ** 30, 0.0, -0.0, 1.5, 1e5, 1e16, 1e-7, float('inf'), float('-inf'),
+        float('nan'), '', 'yes', 'No', 'on', 'null', '~', '1', '1.5', '1e5', '1_000', '0x1F', '017', '1:30',
+        '2001-02-03', 'tr\u00e9ma', '\U0001f600', 'multi\nline', ' lead', 'trail ', 'a: b', '- a', '#c', '"q"', "'q'",
+        '\ttab', '\x85nel', '\u2028ls', 'x' * 200, 'word ' * 40, b'bytes', b'\xff\x00', (1, 2), [], {}, [[]], [{}],
+        {'a': [], 'b': {}}, {1: 'i', 1.5: 'f', None: 'n', True: 'b', (1, 2): 't', 'two': 2},
+        {'b': 1, 'a': 2, 'c': [3, {'z': 0, 'y': None}]}, {'a', 'b'}, frozenset(),
+        datetime.date(2001, 2, 3), datetime.datetime(2001, 12, 14, 21, 59, 43, 100000),
+        datetime.datetime(2001, 12, 14, 21, 59, 43, tzinfo=tz), datetime.datetime(2001, 12, 14, 21, 59, 43,
+                                                                             tzinfo=datetime.timezone.utc),
+        collections.OrderedDict([('z', 1), ('a', 2)]), pathlib.PurePosixPath('a/b'), pathlib.Path('a/b'),
+        collections.UserString('us'), collections.defaultdict(int), decimal.Decimal('1.5'), range(3), 1j,
+        datetime.time(1, 2), datetime.timedelta(1), object,
+    ]
+
+
+def broad_probe():
+    """Digest of what plain PyYAML does for a broad set of documents and values:
+    every scalar spelling family, the standard tags, merge keys, anchors, block and
+    flow styles, several documents in one stream, the usual errors; every built-in
+    type the standard dumpers know and a few they reject; the option combinations of
+    yaml.safe_dump; the other standard loaders and dumpers."""
+    import yaml
+    out = []
+
+    def attempt(f):
+        try:
+            return ['ok', canon.canon(f())]
+        except BaseException as e:      # noqa
+            if isinstance(e, (KeyboardInterrupt, SystemExit, seam.SimCancel)):
+                raise
+            return ['exc'] + list(canon.canon_exc(e))
+
+    out.append(attempt(lambda: list(yaml.safe_load_all(BROAD_DOC))))
+    out.append(attempt(lambda: list(yaml.load_all(BROAD_DOC, Loader=yaml.FullLoader))))
+    out.append(attempt(lambda: [[type(n).__name__, n.tag] for n in yaml.compose_all(BROAD_DOC)]))
+    for d in BROAD_ERRORS:
+        out.append(attempt(lambda: yaml.safe_load(d)))
+    out.append(attempt(lambda: yaml.unsafe_load('[!!python/tuple [1, 2], !!python/complex 1+2j, '
+                                                '!!python/name:os.sep , !!python/str x]')))
+    for v in _broad_values():
+        out.append(attempt(lambda: yaml.safe_dump(v)))
+    big = [True, None, 1, 1.5, 1e5, 'yes', '1', 'tr\u00e9ma', 'multi\nline', {'b': [1, {'a': None}], 'a': {}},
+           'word ' * 12]
+    for kw in ({'default_flow_style': True}, {'default_flow_style': False, 'indent': 4, 'width': 20},
+               {'allow_unicode': True, 'explicit_start': True, 'explicit_end': True},
+               {'canonical': True}, {'default_style': '"', 'sort_keys': False, 'line_break': '\r\n'},
+               {'version': (1, 1), 'tags': {'!e!': 'tag:example.com,2000:'}, 'encoding': 'utf-16'}):
+        out.append(attempt(lambda: yaml.safe_dump(big, **kw)))
+    out.append(attempt(lambda: yaml.dump(_broad_values()[-14:-1])))
+    out.append(attempt(lambda: yaml.safe_dump_all([1, 'a', None, {'k': [1.5]}])))
+    out.append(attempt(lambda: yaml.dump(big, Dumper=yaml.BaseDumper) if False else yaml.serialize(
+        yaml.compose('a: [1, 2.5, yes]'))))
+    out.append(attempt(lambda: [type(e).__name__ for e in yaml.parse('a: [1, &x b, *x]')]))
+    out.append(attempt(lambda: [type(t).__name__ for t in yaml.scan('a: [1, "q"]')]))
+    out.append(attempt(lambda: yaml.emit(yaml.parse('{a: [1, 2], b: !!str x}'))))
+    return [canon.short(x) for x in out]
+
+
 # ------------------------------------------------------------ fingerprints
 
 _REGS = ('yaml_constructors', 'yaml_multi_constructors', 'yaml_representers',
@@ -210,6 +321,9 @@ def deep_fingerprint():
             items.append([cname, '<bases>', [b.__qualname__ for b in cls.__bases__]])
         items.sort(key=repr)
         fp['classes of ' + mname] = canon.short(items)
+    # what plain PyYAML DOES (not only how it is set up)
+    for i, d in enumerate(broad_probe()):
+        fp['plain PyYAML behaviour probe #{}'.format(i)] = d
     fp['yaml modules'] = canon.short(sorted(
         [mname, sorted(k for k in vars(sys.modules[mname]) if not k.startswith('__'))]
         for mname in sys.modules if (mname == 'yaml' or mname.startswith('yaml.')) and sys.modules[mname] is not None))
